@@ -44,9 +44,11 @@ func (this *C40Encoder) encode(context *EncoderContext) error {
 			removed := make([]byte, 0)
 			if (len(buffer)%3) == 2 && available != 2 {
 				lastCharSize, buffer, removed = this.backtrackOneCharacter(context, buffer, removed, lastCharSize)
+				available = c40Available(context, buffer)
 			}
-			for (len(buffer)%3) == 1 && (lastCharSize > 3 || available != 1) {
+			for (len(buffer)%3) == 1 && (lastCharSize > 2 || available != 1) {
 				lastCharSize, buffer, removed = this.backtrackOneCharacter(context, buffer, removed, lastCharSize)
+				available = c40Available(context, buffer)
 			}
 			break
 		}
@@ -72,9 +74,25 @@ func (this *C40Encoder) backtrackOneCharacter(context *EncoderContext,
 	buffer = buffer[:count-lastCharSize]
 	context.pos--
 	c := context.GetCurrentChar()
-	lastCharSize, removed = this.encodeChar(c, removed)
+	_, removed = this.encodeChar(c, removed)
 	context.ResetSymbolInfo() //Deal with possible reduction in symbol size
+	// report the size of the character that is now last in the buffer, so that a
+	// further backtrack removes exactly that character's values
+	lastCharSize = 0
+	if len(buffer) > 0 && context.pos > 0 {
+		lastCharSize, _ = this.encodeChar(context.GetMessage()[context.pos-1], nil)
+	}
 	return lastCharSize, buffer, removed
+}
+
+// c40Available returns the free data codewords of the symbol after the complete
+// triplets of buffer (what c40HandleEOD will see for this buffer).
+func c40Available(context *EncoderContext, buffer []byte) int {
+	curCodewordCount := context.GetCodewordCount() + (len(buffer)/3)*2
+	if e := context.UpdateSymbolInfoByLength(curCodewordCount); e != nil {
+		return -1
+	}
+	return context.GetSymbolInfo().GetDataCapacity() - curCodewordCount
 }
 
 func c40WriteNextTriplet(context *EncoderContext, buffer []byte) []byte {
